@@ -63,7 +63,7 @@ pub fn session(rng: &mut Rng) -> Generated {
         let a = rng.range(1, 50);
         let b = rng.range(1, 50);
         let times = rng.range(0, 3);
-        match rng.below(17) {
+        match rng.below(19) {
             0 => {
                 names.push("early-exit");
                 let limit = rng.range(0, 8);
@@ -317,6 +317,34 @@ pub fn session(rng: &mut Rng) -> Generated {
                         t = t,
                         a = a,
                         b = b
+                    ),
+                );
+            }
+            17 | 18 => {
+                // two captures in one activation, the first one's value still a pending operand when
+                // the second is taken; the first is re-entered with another value (which takes the
+                // second capture again at the same place with the same registers), then the second
+                // continuation is used: it must see the operand of its own pass
+                names.push("two-captures-one-activation");
+                reentry = true;
+                p(
+                    &mut forms,
+                    &format!(
+                        "(define ka{t} #f)
+                         (define kb{t} #f)
+                         (define n{t} 0)
+                         (list 'two (call/cc (lambda (c) (set! ka{t} c) {a})) (call/cc (lambda (c) (set! kb{t} c) 7)))
+                         (if (< n{t} 1) (begin (set! n{t} (+ n{t} 1)) (ka{t} 'second-pass)) 'skip)
+                         (if (< n{t} 2) (begin (set! n{t} (+ n{t} 1)) (kb{t} 9)) 'skip)
+                         (define (twocap{t} z)
+                           (+ (* 100 (call/cc (lambda (c) (set! ka{t} c) z))) (* 10 {b}) (call/cc (lambda (c) (set! kb{t} c) 1))))
+                         (set! n{t} 0)
+                         (twocap{t} 2)
+                         (if (< n{t} 2) (begin (set! n{t} (+ n{t} 1)) (ka{t} (+ n{t} 4))) 'skip)
+                         (if (< n{t} 4) (begin (set! n{t} (+ n{t} 1)) (kb{t} 3)) 'skip)",
+                        t = t,
+                        a = a,
+                        b = b % 10
                     ),
                 );
             }
